@@ -19,6 +19,7 @@ RULE = ("IPv4: every prefix length 0..32 x {boundary, random} network addresses;
         "every host hextet; native CIDR rendering; invalid strings; distinct = distinct CIDR string; non-trivial = "
         "prefix not a multiple of 8 (v4) / 4 (v6) or a network address with a zero group"
         "; native rendering of other valid spellings (netmask form, exploded/upper-case IPv6, host without prefix); query-level cases: the OR of patterns under AND / NOT for backends with and without in-lists")
+RULE += '; round 4: invalid texts incl. valid networks with surrounding / embedded whitespace and other foreign characters, through the value class, a rule value and a rule value list'
 ASSUMPTIONS = [
     "Python's ipaddress parses and normalises the CIDR text (the Lean model re-implements the text forms and is compared on every probe)",
     "IPv4 patterns are of the forms '*', 'a.*', 'a.b.*', 'a.b.c.*', 'a.b.c.d'; any other form is judged by probes only",
@@ -62,7 +63,10 @@ def v6_cases(rnd, thorough, effort):
 
 INVALID = ["10.0.0.1/8", "10.0.0.0/33", "256.0.0.0/8", "10.0.0/8", "10.0.0.0.0/8", "10.0.0.0/-1", "10.0.0.0/x", "", "/8",
            "abc", "10.0.0.0/8/8", "2001:db8:::/32", "2001:db8::/129", "2001:db8::1/32", "12345::/16", "g::/8", "1.2.3.4/24",
-           "::ffff:1.2.3.4/96x", "1:2:3:4:5:6:7:8:9/128"]
+           "::ffff:1.2.3.4/96x", "1:2:3:4:5:6:7:8:9/128",
+           # a valid network with characters around / inside it that are not part of the notation
+           " 10.0.0.0/8", "10.0.0.0/8 ", "10.0.0.0/8\n", "\t10.0.0.0/8", "\u00a010.0.0.0/8", "10.0.0.0 /8", "10.0.0.0/ 8", "10.0.0.0/8\r\n",
+           " 2001:db8::/32", "2001:db8::/32\n", "10.0.0.0/8,", "[2001:db8::]/32", "10.0.0.0/08x", "+10.0.0.0/8", "10.0.0.0/+8", "１０.0.0.0/8"]
 
 
 def gen_cases(tier, seed, gen, effort):
@@ -72,7 +76,8 @@ def gen_cases(tier, seed, gen, effort):
     for c in cases:
         w = 32 if c["kind"] == "v4" else 128
         c["addrs"] = [str(a) for a in probes(rnd, w, c["base"], c["p"], thorough)]
-    cases += [{"kind": "invalid", "text": t} for t in INVALID]
+    # every entry point rejects them: the value class itself and a rule that names the value under the cidr modifier
+    cases += [{"kind": "invalid", "text": t, "via": via} for t in INVALID for via in ("ctor", "rule", "list")]
     # the patterns as they stand in a query: a backend without native CIDR support OR-links them; inside AND / NOT the group must
     # stay one operand (read back by the target grammar and compared with the rule's meaning: the C01 machinery)
     base_cfg = {"prec": ["not", "and", "or"], "parenthesize": False, "orAsIn": False, "andAsIn": False, "inAllowWild": False, "notAsNotEq": False,
@@ -135,7 +140,13 @@ def run_impl(case):
     from sigma.backends.test import TextQueryTestBackend
     if case["kind"] == "invalid":
         try:
-            SigmaCIDRExpression(case["text"])
+            if case.get("via", "ctor") == "ctor":
+                SigmaCIDRExpression(case["text"])
+            else:
+                val = case["text"] if case["via"] == "rule" else ["10.1.0.0/16", case["text"]]
+                qs = TextQueryTestBackend().convert(SigmaCollection.from_dicts([{"title": "t", "logsource": {"category": "c"},
+                                                                                 "detection": {"sel": {"f|cidr": val}, "condition": "sel"}}]))
+                return {"outcome": "ok", "queries": [str(q) for q in qs]}
             return {"outcome": "ok"}
         except Exception as e:
             return {"outcome": outcome_of_exception(e)}
@@ -203,10 +214,13 @@ def judge(case, impl, reply):
         v.tags = ("kind:query",) + tuple(t for t in v.tags if t.startswith(("impl:", "unjudged")))
         return v
     if case["kind"] == "invalid":
-        key = ("invalid", case["text"])
+        via = case.get("via", "ctor")
+        key = ("invalid", case["text"], via)
         if io.startswith("sigma:"):
-            return Verdict("ok", "", True, key, tags=("kind:invalid",))
-        return Verdict("violation", f"invalid CIDR {case['text']!r}: outcome {io} instead of a Sigma error", True, key, tags=("kind:invalid",))
+            return Verdict("ok", "", True, key, tags=("kind:invalid", f"via:{via}"))
+        how = {"ctor": "given to SigmaCIDRExpression", "rule": "as the value of 'f|cidr' in a rule", "list": "as one value of a list under 'f|cidr' in a rule"}[via]
+        return Verdict("violation", f"invalid CIDR {case['text']!r} {how}: outcome {io}{' -> ' + repr(impl.get('queries')) if impl.get('queries') else ''} instead of a Sigma error",
+                       True, key, tags=("kind:invalid", f"via:{via}"))
     p, base = case["p"], case["base"]
     w = 32 if case["kind"] == "v4" else 128
     key = (case["kind"], base, p)
